@@ -11,7 +11,13 @@ def run(ctx):
         d = ctx.specdir("gen_tasks_mix%d" % i)
         mix += core.tlc(ctx, d, "Gen_TaskGrammar.tla", "Gen_TaskGrammar_mix.cfg", timeout=900, extra=["-seed", str(ctx.seed * 100 + i)]).behaviours
     ctx.say("  cells: %d single-task cells (every grammar row x value class x key class) + %d mixed batches of 2-3 tasks" % (len(single), len(mix)))
-    cells = single + mix
+    # batches above what one check-in hands out (30 MB): delivered over several check-ins
+    import random
+    long = core.generate(ctx, "Gen_TaskGrammar.tla", "Gen_TaskGrammar_long.cfg", 0, 0, ctx.seed, bfs=True, timeout=900)
+    random.Random(ctx.seed).shuffle(long)
+    long = long[:8 if quick else 72]
+    ctx.say("  long batches: %d (2-3 tasks with byte parameters of 8 MiB each)" % len(long))
+    cells = single + mix + long
     hb = core.build_harness(ctx)
     trace, summ = core.run_harness(ctx, hb, "tasks", cells, "tasks", timeout=3000)
     for inc in summ["incidents"]:
@@ -24,7 +30,7 @@ def run(ctx):
         why = "missing-task" if len(got) < len(rows) else "value"
         core.report(ctx, {"check": "Mon_TaskGrammar", "invariant": x["invariant"], "rows": rows if len(rows) == 1 else "batch", "why": why}, {"events": evs, "failing_event": x["event"]})
     core.write_evidence(ctx, "model_checking",
-        rule="cells = every row of the task grammar (74 command/sub-command rows transcribed from the Demon's Command.c) x 4 value classes (boundary integers incl. 2^31-1 / 2^31+1 / 2^32-1, empty / path / 70 000-character / non-ASCII+astral text, 0 / 37 / 200 000 byte blobs) x zero / non-zero session key, plus seeded mixed batches of 2-3 tasks; the operator package goes through DispatchEvent -> TaskPrepare -> queue, the check-in reply is decoded by the reference Demon (per-task AES-CTR from the IV, little-endian framing, typed fields in handler order); non-trivial = cells",
+        rule="cells = every row of the task grammar (74 command/sub-command rows transcribed from the Demon's Command.c) x 4 value classes (boundary integers incl. 2^31-1 / 2^31+1 / 2^32-1, empty / path / 70 000-character / non-ASCII+astral text, 0 / 37 / 200 000 byte blobs) x zero / non-zero session key, plus seeded mixed batches of 2-3 tasks, plus batches of 2-3 tasks with 8 MiB byte parameters that exceed what one check-in hands out (the agent checks in until nothing is left); the operator package goes through DispatchEvent -> TaskPrepare -> queue, the check-in reply is decoded by the reference Demon (per-task AES-CTR from the IV, little-endian framing, typed fields in handler order); non-trivial = cells",
         samples=summ["samples"], evaluations=summ["behaviours"], distinct_nontrivial=len(cells), exhaustive=False,
         extra={"counters": summ["counters"], "rows": 74},
         assumptions=["the operator-side encoding of each row (drive/tasks.go taskInfo) stands for the Qt client", "rows that need files on disk or staged memory files (dll inject/spawn, inline-execute, dotnet, upload) are not in the table; upload chunking is C04's"])
